@@ -15,7 +15,8 @@ EXTENDS DicomJson, Json, FiniteSets
 
 CONSTANTS Part,        \* "vr" | "struct" | "all"
           MaxMult,     \* multiplicity bound of the VR sweep
-          Rich         \* TRUE: larger value alphabets
+          Rich,        \* TRUE: larger value alphabets
+          Check        \* TRUE: check the specification against itself; FALSE: print the cases
 VARIABLE c
 
 El(g, e, vr, rep, vals) == [g |-> g, e |-> e, vr |-> vr, rep |-> rep, vals |-> vals]
@@ -139,14 +140,21 @@ StructCases ==
 Cases == IF Part = "vr" THEN {<<el>> : el \in VRElems} ELSE IF Part = "struct" THEN StructCases
          ELSE {<<el>> : el \in VRElems} \cup StructCases
 
-Init == c \in Cases
+(* One behaviour-free "state machine": the work is done when TLC evaluates  *)
+(* the constant-level definitions below (operator arguments are cached at   *)
+(* constant level, which makes this an order of magnitude faster than an    *)
+(* invariant over one initial state per case).                              *)
+Init == c = 0
 Next == UNCHANGED c
 Spec == Init /\ [][Next]_c
 
 (* the specification checked against itself on every case *)
-SelfConsistent == /\ DistinctTags(c)
-                  /\ Conforms(c, Shape(c))
-                  /\ SameDs(c, NormJson(c))
-                  /\ NormJson(NormJson(c)) = NormJson(c)
-Emit == PrintT(<<"CASE", ToJson([ds |-> c, shape |-> Shape(c), norm |-> NormJson(c)])>>)
+SelfConsistentCase(d) == /\ DistinctTags(d)
+                         /\ Conforms(d, Shape(d))
+                         /\ SameDs(d, NormJson(d))
+                         /\ NormJson(NormJson(d)) = NormJson(d)
+SelfConsistent == \A d \in Cases : SelfConsistentCase(d) \/ Print(<<"INCONSISTENT", d>>, FALSE)
+EmitAll == \A d \in Cases : PrintT(<<"CASE", ToJson([ds |-> d, shape |-> Shape(d), norm |-> NormJson(d)])>>)
+Do == IF Check THEN SelfConsistent ELSE EmitAll
+ASSUME Do
 =============================================================================
